@@ -92,6 +92,18 @@ DIFFERENT += [
     ('match test inverted',
      'def f(s):\n    if RE_X.match(s) is None:\n        return 1\n    return 0',
      'def f(s):\n    if RE_X.match(s):\n        return 1\n    return 0'),
+    ('any versus all',
+     'def f(xs, s):\n    for c in xs:\n        if c not in s:\n            return False\n    return True',
+     'def f(xs, s):\n    return any(c in s for c in xs)'),
+    ('statement that can raise moved out of the try',
+     'def f(self, k):\n    try:\n        self.a(k)\n        return self.b(k)\n    except KeyError:\n        return None',
+     'def f(self, k):\n    try:\n        self.a(k)\n    except KeyError:\n        return None\n    return self.b(k)'),
+    ('call moved out of a with block',
+     'def f(self, p):\n    with open(p) as h:\n        x = h.read()\n        self.note(x)\n    return x',
+     'def f(self, p):\n    with open(p) as h:\n        x = h.read()\n    self.note(x)\n    return x'),
+    ('loop over the other iterable',
+     'def f(self, i):\n    for r in (self.xs if i >= 0 else reversed(self.xs)):\n        g(r)',
+     'def f(self, i):\n    if i >= 0:\n        for r in reversed(self.xs):\n            g(r)\n    else:\n        for r in self.xs:\n            g(r)'),
 ]
 
 SAME = [
@@ -111,6 +123,15 @@ SAME = [
      'def f(self, c, b):\n    if not c:\n        return b\n    b = b[:-1]\n    return b'),
     ('chained comparison', 'def f(lo, v, hi):\n    if v >= lo and v <= hi:\n        return 1\n    return 0', 'def f(lo, v, hi):\n    if lo <= v <= hi:\n        return 1\n    return 0'),
     ('tuple assignment to attributes', 'def f(self, v):\n    self.a = 65\n    self.b = len(v)', 'def f(self, v):\n    self.a, self.b = 65, len(v)'),
+    ('early-return loop is any()', 'def f(xs, s):\n    for c in xs:\n        if c not in s:\n            return 1\n    return 2', 'def f(xs, s):\n    if any(c not in s for c in xs):\n        return 1\n    return 2'),
+    ('all() of a list', 'def f(self):\n    for b in self.stk:\n        if not b:\n            return False\n    return True', 'def f(self):\n    return all(self.stk)'),
+    ('return of a truth value', 'def f(self, b):\n    if self.a & (1 << b):\n        return True\n    return False', 'def f(self, b):\n    return bool(self.a & (1 << b))'),
+    ('return True after the try', 'def f(self, k):\n    try:\n        self[k]\n        return True\n    except KeyError as err:\n        return False', 'def f(self, k):\n    try:\n        self[k]\n    except KeyError:\n        return False\n    return True'),
+    ('return inside the with block', 'def f(p):\n    with open(p) as h:\n        r = {k: v for k, v in load(h).items()}\n    return r', 'def f(p):\n    with open(p) as h:\n        return {a: b for a, b in load(h).items()}'),
+    ('one loop over a chosen iterable', 'def f(self, i):\n    if i >= 0:\n        for r in self.xs:\n            g(r)\n    else:\n        for r in reversed(self.xs):\n            g(r)', 'def f(self, i):\n    for r in (self.xs if i >= 0 else reversed(self.xs)):\n        g(r)'),
+    ('set built by a loop', 'def f(t):\n    s = set()\n    for c in t.split(","):\n        if c.strip() != "":\n            s.add(c.strip())\n    return s', 'def f(t):\n    return {c.strip() for c in t.split(",") if c.strip() != ""}'),
+    ('reassociated product', 'def f(b, n, c):\n    return len(b) - 4 * n * len(c)', 'def f(b, n, c):\n    return len(b) - len(c) * n * 4'),
+    ('independent tests nested the other way', 'def f(a, b):\n    if a.x:\n        if b.y:\n            return 1\n        return 2\n    if b.y:\n        return 3\n    return 4', 'def f(a, b):\n    if b.y:\n        if a.x:\n            return 1\n        return 3\n    if a.x:\n        return 2\n    return 4'),
     ('match object is not None', 'def f(s):\n    if RE_X.match(s):\n        return 1\n    return 0', 'def f(s):\n    if RE_X.match(s) is not None:\n        return 1\n    return 0'),
 ]
 
